@@ -840,3 +840,31 @@ Proof.
   intros Ht. rewrite pl_pts_exact by exact Ht. unfold cv_coordnum_center, center_pairs. cbv zeta.
   rewrite lsum_eq, rsum_map. reflexivity.
 Qed.
+
+(* ------------------------------------------------------------------ eigenvector: prepared vectors *)
+Lemma cv_eigenvector_v_centered (q : Q4) ref vec g :
+  cv_eigenvector_v Rops q ref (eigvec_prepare Rops false false q ref vec) g = cv_eigenvector Rops q ref vec g.
+Proof. reflexivity. Qed.
+Lemma vnorm2_sum_scale c (v : list V3) : vnorm2_sum Rops (map (v3scale Rops c) v) = c * c * vnorm2_sum Rops v.
+Proof.
+  unfold vnorm2_sum. rewrite !lsum_eq, rsum_map, <- rsum_scal. apply rsum_ext. intros p _.
+  dv p. unfold v3norm2, v3dot, v3scale. rs. ring.
+Qed.
+(* normalizeVector: the vector used has unit norm *)
+Lemma eigvec_normalized (difference : bool) (qd : Q4) (ref vec : list V3) :
+  0 < vnorm2_sum Rops (if difference then map (fun pr => v3sub Rops (rotate Rops qd (fst pr)) (snd pr)) (combine (center_pts Rops vec) (center_pts Rops ref))
+                       else center_pts Rops vec) ->
+  vnorm2_sum Rops (eigvec_prepare Rops difference true qd ref vec) = 1.
+Proof.
+  intros H. unfold eigvec_prepare. cbv zeta.
+  destruct difference; rewrite vnorm2_sum_scale; rs;
+    (rewrite sqrt_sqrt; [field; lra|]; unfold Rdiv; rewrite Rmult_1_l; left; apply Rinv_0_lt_compat; exact H).
+Qed.
+Lemma eigenvector_v_rigid (M : M3) (q q' : Q4) ref v t g : proper_rotation M -> g <> [] ->
+  unique_optimum (fit_pairs Rops ref g) ->
+  is_optimal q (fit_pairs Rops ref g) -> is_optimal q' (fit_pairs Rops ref (shift_group t (rot_group M g))) ->
+  cv_eigenvector_v Rops q' ref v (shift_group t (rot_group M g)) = cv_eigenvector_v Rops q ref v g.
+Proof.
+  intros HM Hg Hu Hq Hq'. unfold cv_eigenvector_v.
+  destruct (fitted_rigid_M M q q' ref v t g HM Hg Hu Hq Hq') as [E _]. rewrite E. reflexivity.
+Qed.
